@@ -315,6 +315,22 @@ type probeKey struct {
 	Port int
 }
 
+// sortedProbeKeys returns the keys in (address, port) order: verdicts and generated scenarios must
+// never depend on Go's randomised map iteration order.
+func sortedProbeKeys(m map[probeKey]int) []probeKey {
+	ks := make([]probeKey, 0, len(m))
+	for k := range m {
+		ks = append(ks, k)
+	}
+	sort.Slice(ks, func(i, j int) bool {
+		if ks[i].IP != ks[j].IP {
+			return ks[i].IP < ks[j].IP
+		}
+		return ks[i].Port < ks[j].Port
+	})
+	return ks
+}
+
 func (k probeKey) String() string { return fmt.Sprintf("%s:%d", ipStr(k.IP), k.Port) }
 
 func diffMultiset(got, want map[probeKey]int) (missing, extra []string) {
